@@ -141,11 +141,13 @@ struct Run : ContBase {
         if (nm == 0) after_resize0 = true;
     }
     void do_toarray() {
+        bool nosz = s.chance(1, 6);                        // "size: if not NULL ..."
         size_t cnt = 4242;
         errno = poison;
-        void *p = qvector_toarray(v, &cnt);
+        void *p = qvector_toarray(v, nosz ? nullptr : &cnt);
         int er = errno;
-        c.op("toarray() n=%zu", m.size());
+        c.op("toarray(%s) n=%zu", nosz ? "size=NULL" : "", m.size());
+        if (nosz) { cnt = m.size(); c.tag("null_size_outparam"); }
         if (m.empty()) { if (p || cnt != 0) c.fail(FUNC, "vector:toarray-empty", "toarray on an empty vector returned data / count %zu", cnt); if (er != ENOENT) c.fail(FUNC, "vector:toarray-errno", "toarray on empty vector: errno=%d", er); return; }
         std::string want; for (auto &e : m) want += e;
         if (!p || cnt != m.size() || memcmp(p, want.data(), want.size()) != 0) c.fail(FUNC, "vector:toarray", "toarray() returned %zu elements that differ from the %zu stored", cnt, m.size());
